@@ -87,6 +87,9 @@ func (m *Machine) fmtArg(fr *frame, verb byte, flags string, v Value) Value {
 		return x
 	case *term.T:
 		if !x.IsConst() {
+			if (verb == 'd' || verb == 'v') && flags == "" && x.S.K == term.KBV && x.ROK && x.RLo > -1000000000000 && x.RHi < 1000000000000 {
+				return m.fmtSymInt(x)
+			}
 			return "‹sym›"
 		}
 		f := "%" + flags + string(verb)
@@ -280,4 +283,46 @@ func (m *Machine) methodNamed(t types.Type, name string) *ssa.Function {
 		}
 	}
 	return nil
+}
+
+// fmtSymInt renders a symbolic integer with a known narrow range in decimal: the sign and
+// the number of digits are decided (forks), each digit is (v / 10^i) % 10.
+func (m *Machine) fmtSymInt(x *term.T) Value {
+	tb := m.tb
+	w := int(x.S.W)
+	v := x
+	neg := false
+	if x.RLo < 0 {
+		if x.RHi < 0 || m.condBool(tb.SLt(x, tb.BV(w, 0)), "fmt-sign") {
+			neg = true
+			v = tb.Neg(x)
+		}
+	}
+	// number of digits
+	nd := 1
+	p := uint64(10)
+	for nd < 13 {
+		if v.ROK && v.RHi < int64(p) {
+			break
+		}
+		if m.condBool(tb.ULt(v, tb.BV(w, p)), "fmt-digits") {
+			break
+		}
+		nd++
+		p *= 10
+	}
+	bs := make([]*term.T, 0, nd+1)
+	if neg {
+		bs = append(bs, tb.BV(8, '-'))
+	}
+	div := uint64(1)
+	for i := 1; i < nd; i++ {
+		div *= 10
+	}
+	for i := 0; i < nd; i++ {
+		d := tb.URem(tb.UDiv(v, tb.BV(w, div)), tb.BV(w, 10))
+		bs = append(bs, tb.Add(tb.Extract(d, 7, 0), tb.BV(8, '0')))
+		div /= 10
+	}
+	return mkStr(bs)
 }
